@@ -894,6 +894,35 @@ def _part_valueset(rep, tier, seed):
              "equal, and %d enumerated pairs denote the same set but compare unequal (e.g. ValueSet(1) vs ValueSet((1, 1)), ValueSet((0, 1), (2, 3)) vs ValueSet((0, 3)))" % eq_inc)
     rep.extra_coverage["C17_equal_sets_comparing_unequal"] = eq_inc
 
+    # ---- non-integer probes: an inclusive range lo..hi contains exactly the x with lo <= x <= hi, so a value strictly between
+    # two listed ranges (e.g. 2.5 for (0, 2), (3, 5)) is in neither and must not be contained, however the set was built
+    import fractions
+
+    n_real = 0
+    fl = _Fails()
+    small = [a for a in _universe("int5")[0]]
+    halves = [k + 0.5 for k in range(-1, 5)] + [fractions.Fraction(2 * k + 1, 2) for k in range(-1, 5)] + [k + 0.25 for k in (0, 2)]
+    for m in (1, 2, 3):
+        for combo in itertools.product(small, repeat=m):
+            if m == 3 and not all(a.kind == "r" for a in combo[:2]):
+                continue
+            for mode in ([(m, ()), (0, ("M",) * m), (0, ("R",) * m), (0, ("L",) * m)] + ([("S", 1)] if m >= 2 else [])):
+                vs = _build(ct.ValueSet, list(combo), mode)
+                n_real += 1
+                exp = [any(a.kind == "r" and a.arg[0] <= x <= a.arg[1] for a in combo) for x in halves]
+                got = [x in vs for x in halves]
+                if got != exp:
+                    fl.add("valueset-membership-non-integer", dict(
+                        what="membership of a non-integer value differs from the union of the listed inclusive ranges", inputs=dict(program=_program_text(list(combo), mode)),
+                        expected=dict(zip(map(repr, halves), exp)), observed=dict(zip(map(repr, halves), got))))
+    total.merge(fl)
+    rep.add_bounded(
+        "C17.valueset.non_integer_probes",
+        "EXHAUSTIVE over value sets of <= 2 atoms (3 atoms when the first two are ranges) over 0..4, built by the constructor, add_value/add_range, "
+        "right and left unions and a split union: x in set == (some listed inclusive range lo <= x <= hi) for every probe k + 1/2 (float and Fraction), k = -1..4, and 0.25, 2.25 "
+        "(in particular a value between two abutting ranges such as (0, 2), (3, 4) is not contained)",
+        n_real, True, distinct=n_real)
+
     # ---- AnyValue
     n_any = 0
     for un, k in ((uname, 2), ("str", 2), ("mixed", 2)):
